@@ -91,7 +91,7 @@ def main():
     else:
         st = build.build_all(log=os.path.join(build.COQ, "make.log"))
     pr = build.check_prop(prop.COQ_PROP, thorough=(tier == "thorough"))
-    obl, dis = build.obligations(os.path.join(build.COQ, "props", prop.COQ_PROP + ".v")) if os.path.exists(
+    obl, dis = build.obligations_of(prop.COQ_PROP) if os.path.exists(
         os.path.join(build.COQ, "props", prop.COQ_PROP + ".v")) else ([], [])
     proof_ok = bool(pr["prop_ok"]) and len(obl) == len(dis) and not st["lint"] and st["constants_ok"]
     proof_problem = None
@@ -203,7 +203,8 @@ def main():
     ]
     cov = {
         "obligations": len(obl), "discharged": len(dis),
-        "checker_cmd": "cd coq && make && coqc -Q . DT props/%s.v%s" % (pid, " && coqchk -o -Q . DT DT.props.%s" % pid if tier == "thorough" else ""),
+        "checker_cmd": "cd coq && make && " + " && ".join("coqc -Q . DT " + f for f in pr.get("files") or ["props/%s.v" % pid]) + (
+            " && " + " && ".join("coqchk -o -Q . DT DT." + f[:-2].replace("/", ".") for f in pr.get("files") or []) if tier == "thorough" else ""),
         "trusted_base": trusted,
         "evaluations": int(orc.get("evaluations", 0)) + sum(r.get("total", 0) for r in corr_results),
         "distinct_nontrivial": int(orc.get("distinct_nontrivial", 0)) + sum(r.get("nontrivial_distinct", 0) for r in corr_results),
